@@ -1323,7 +1323,14 @@ func addF(x, y Float) (Float, error) {
 		return 0, exceptionalValueFloatOverflow
 	}
 
-	return x + y, nil
+	r := x + y
+
+	// The bounds above are rounded: the sum can still round to an infinity.
+	if math.IsInf(float64(r), 0) {
+		return 0, exceptionalValueFloatOverflow
+	}
+
+	return r, nil
 }
 
 func subF(x, y Float) (Float, error) {
